@@ -1,13 +1,13 @@
 package props
 
 import (
-	"path/filepath"
 	"context"
 	"crypto/ecdh"
 	"encoding/hex"
 	"encoding/json"
 	"io"
 	"os"
+	"path/filepath"
 	"slices"
 	"testing"
 
@@ -183,7 +183,15 @@ func TestC04Replay(t *testing.T) { replayHelloFamily(t, "C04") }
 func TestC05Replay(t *testing.T) { replayHelloFamily(t, "C05") }
 func TestC09Replay(t *testing.T) { replayHelloFamily(t, "C09") }
 
-func TestC04Regress(t *testing.T) { regress(t, "C04", func(t *testing.T, d map[string]any) { replayHelloDoc(t, "C04", d) }) }
-func TestC05Regress(t *testing.T) { regress(t, "C05", func(t *testing.T, d map[string]any) { replayHelloDoc(t, "C05", d) }) }
-func TestC02Regress(t *testing.T) { regress(t, "C02", func(t *testing.T, d map[string]any) { replayHelloDoc(t, "C02", d) }) }
-func TestC03Regress(t *testing.T) { regress(t, "C03", func(t *testing.T, d map[string]any) { replayHelloDoc(t, "C03", d) }) }
+func TestC04Regress(t *testing.T) {
+	regress(t, "C04", func(t *testing.T, d map[string]any) { replayHelloDoc(t, "C04", d) })
+}
+func TestC05Regress(t *testing.T) {
+	regress(t, "C05", func(t *testing.T, d map[string]any) { replayHelloDoc(t, "C05", d) })
+}
+func TestC02Regress(t *testing.T) {
+	regress(t, "C02", func(t *testing.T, d map[string]any) { replayHelloDoc(t, "C02", d) })
+}
+func TestC03Regress(t *testing.T) {
+	regress(t, "C03", func(t *testing.T, d map[string]any) { replayHelloDoc(t, "C03", d) })
+}
